@@ -183,6 +183,16 @@ type Conn struct {
 
 	closed uint64
 
+	// The next three belong to the read loop. hdrBuf collects a header block
+	// that is continued in CONTINUATION frames until END_HEADERS, and
+	// hdrEndStream remembers that its HEADERS frame carried END_STREAM. The
+	// frames of a block are contiguous on the connection (RFC 7540 6.10), so
+	// one buffer serves every stream. gotHeaders notes the streams whose
+	// response header block has been seen, which makes a later one trailers.
+	hdrBuf       []byte
+	hdrEndStream bool
+	gotHeaders   map[uint32]struct{}
+
 	vh verifCliHook
 }
 
@@ -234,6 +244,7 @@ func NewConn(c net.Conn, opts ConnOpts) *Conn {
 		maxFrameSize:  defaultDataFrameSize,
 		pending:       make(map[uint32]*pendingBody),
 		reqQueued:     make(map[uint32]*Ctx),
+		gotHeaders:    make(map[uint32]struct{}),
 		winCh:         make(chan struct{}, 1),
 		in:            make(chan *Ctx, 128),
 		out:           make(chan *FrameHeader, 128),
@@ -874,36 +885,99 @@ func (c *Conn) readLoop() {
 // whether the read loop should stop.
 func (c *Conn) dispatch(fr *FrameHeader) bool {
 	r, ok := c.loadReq(fr.Stream())
-	if !ok {
-		return false
-	}
-
-	// A canceled or finished request has taken its Response back, so there is
-	// nowhere to put this frame. Drop the stream and carry on.
-	if !r.acquireFor(c, fr.Stream()) {
+	if ok && !r.acquireFor(c, fr.Stream()) {
+		// A canceled or finished request has taken its Response back, so there
+		// is nowhere to put this frame. Drop the stream and carry on.
 		c.dequeueReq(fr.Stream())
 
-		return false
+		ok = false
+	}
+
+	if !ok {
+		// Nobody is waiting for the frame, but what it does to the state the
+		// whole connection shares still counts: a header block has to go
+		// through the HPACK decoder, or every later response is decoded
+		// against the wrong table, and DATA has used the connection window,
+		// which the server only gets back if we say so.
+		return c.dropFrame(fr)
 	}
 
 	// Released on the way out even if readStream panics: leaving the Ctx locked
 	// would wedge the RoundTrip that is waiting to take it back.
 	defer r.release()
 
-	err := c.readStream(fr, r.Response)
+	err, fatal := c.readStream(fr, r.Response)
 	if err == nil {
-		if fr.Flags().Has(FlagEndStream) {
+		if c.endsStream(fr) {
+			delete(c.gotHeaders, fr.Stream())
 			c.finish(r, fr.Stream(), nil)
 		}
 	} else {
+		delete(c.gotHeaders, fr.Stream())
 		c.finish(r, fr.Stream(), err)
 	}
 
-	if err != nil && errors.Is(err, FlowControlError) {
+	if fatal || (err != nil && errors.Is(err, FlowControlError)) {
+		// the HPACK context is gone: nothing on this connection can be trusted
+		c.setLastErr(err)
+
 		return true
 	}
 
 	return c.state == connStateClosed && fr.Stream() == c.closeRef
+}
+
+// endsStream reports whether fr completes the response. END_STREAM is a flag
+// of DATA and HEADERS only, and on HEADERS it takes effect when the header
+// block ends, which may be on a later CONTINUATION frame.
+func (c *Conn) endsStream(fr *FrameHeader) bool {
+	switch fr.Type() {
+	case FrameData:
+		return fr.Flags().Has(FlagEndStream)
+	case FrameHeaders:
+		if !fr.Flags().Has(FlagEndHeaders) {
+			c.hdrEndStream = fr.Flags().Has(FlagEndStream)
+
+			return false
+		}
+
+		return fr.Flags().Has(FlagEndStream)
+	case FrameContinuation:
+		if !fr.Flags().Has(FlagEndHeaders) {
+			return false
+		}
+
+		end := c.hdrEndStream
+		c.hdrEndStream = false
+
+		return end
+	}
+
+	return false
+}
+
+// dropFrame deals with a frame for a stream no request is waiting on. It
+// reports whether the read loop has to stop.
+func (c *Conn) dropFrame(fr *FrameHeader) bool {
+	switch fr.Type() {
+	case FrameHeaders, FrameContinuation:
+		_, fatal := c.readStream(fr, nil)
+		if c.endsStream(fr) {
+			delete(c.gotHeaders, fr.Stream())
+		}
+
+		return fatal
+	case FrameData:
+		c.consumeWindow(fr.Len())
+
+		if fr.Flags().Has(FlagEndStream) {
+			delete(c.gotHeaders, fr.Stream())
+		}
+	case FrameResetStream:
+		delete(c.gotHeaders, fr.Stream())
+	}
+
+	return false
 }
 
 func (c *Conn) writeRequest(ctx *Ctx) error {
@@ -983,8 +1057,11 @@ func (c *Conn) writeRequest(ctx *Ctx) error {
 	hf.SetBytes(StringScheme, req.URI().Scheme())
 	enc.AppendHeaderField(h, hf, true)
 
-	hf.SetBytes(StringUserAgent, req.Header.UserAgent())
-	enc.AppendHeaderField(h, hf, true)
+	// a request that names no user agent does not get an empty one
+	if ua := req.Header.UserAgent(); len(ua) > 0 {
+		hf.SetBytes(StringUserAgent, ua)
+		enc.AppendHeaderField(h, hf, true)
+	}
 
 	for k, v := range req.Header.All() {
 		if bytes.EqualFold(k, StringUserAgent) {
@@ -1502,38 +1579,66 @@ func (c *Conn) handlePing(ping *Ping) {
 	c.writeOut(fr)
 }
 
-func (c *Conn) readStream(fr *FrameHeader, res *fasthttp.Response) (err error) {
+// readStream applies a stream frame to the response. fatal is set when the
+// header block could not be decoded: the HPACK context is then out of step
+// with the server's for good.
+func (c *Conn) readStream(fr *FrameHeader, res *fasthttp.Response) (err error, fatal bool) {
 	switch fr.Type() {
 	case FrameHeaders, FrameContinuation:
-		h := fr.Body().(FrameWithHeaders)
-		err = c.readHeader(h.Headers(), res)
+		// A header block may be continued in CONTINUATION frames, cut at any
+		// byte. It is decoded once it is complete: decoding the fragments one
+		// by one failed any field that straddled two frames.
+		c.hdrBuf = append(c.hdrBuf, fr.Body().(FrameWithHeaders).Headers()...)
+		if !fr.Flags().Has(FlagEndHeaders) {
+			return nil, false
+		}
+
+		b := c.hdrBuf
+		c.hdrBuf = c.hdrBuf[:0]
+
+		_, trailers := c.gotHeaders[fr.Stream()]
+
+		var interim bool
+
+		err, fatal, interim = c.readHeader(b, res, trailers)
+		if err == nil && !interim && res != nil {
+			c.gotHeaders[fr.Stream()] = struct{}{}
+		}
 	case FrameResetStream:
 		// The server gave up on the stream. Without this the request would sit
 		// there until MaxResponseTime, or forever if that check is disabled.
 		err = NewResetStreamError(
 			fr.Body().(*RstStream).Code(), "stream reset by the server")
 	case FrameData:
-		c.currentWindow -= int32(fr.Len())
-		currentWin := c.currentWindow
-
 		data := fr.Body().(*Data)
 		if data.Len() != 0 {
 			res.AppendBody(data.Data())
+		}
 
-			// let's send the window update
+		// Padding counts against the windows like data does, so the credit
+		// goes by the length of the frame, also when all of it is padding.
+		if fr.Len() != 0 && !fr.Flags().Has(FlagEndStream) {
 			c.updateWindow(fr.Stream(), fr.Len())
 		}
 
-		if currentWin < c.maxWindow/2 {
-			nValue := c.maxWindow - currentWin
-
-			c.currentWindow = c.maxWindow
-
-			c.updateWindow(0, int(nValue))
-		}
+		c.consumeWindow(fr.Len())
 	}
 
-	return err
+	return err, fatal
+}
+
+// consumeWindow counts flow-controlled bytes against the connection window and
+// hands the window back once half of it is used.
+func (c *Conn) consumeWindow(n int) {
+	c.currentWindow -= int32(n)
+
+	if c.currentWindow < c.maxWindow/2 {
+		nValue := c.maxWindow - c.currentWindow
+
+		c.currentWindow = c.maxWindow
+
+		c.updateWindow(0, int(nValue))
+	}
 }
 
 func (c *Conn) updateWindow(streamID uint32, size int) {
@@ -1549,8 +1654,13 @@ func (c *Conn) updateWindow(streamID uint32, size int) {
 	c.writeOut(fr)
 }
 
-func (c *Conn) readHeader(b []byte, res *fasthttp.Response) error {
-	var err error
+// readHeader decodes one complete header block into res, which is nil when
+// nobody is waiting for the response. The block is decoded to its end even
+// after a field has been found to be malformed, because the dynamic table has
+// to see all of it; err is then the first thing that was wrong. fatal reports
+// that the block could not be decoded at all, and interim that it was an
+// informational (1xx) response, which is followed by the real one.
+func (c *Conn) readHeader(b []byte, res *fasthttp.Response, trailers bool) (err error, fatal, interim bool) {
 	hf := AcquireHeaderField()
 	defer ReleaseHeaderField(hf)
 
@@ -1558,14 +1668,28 @@ func (c *Conn) readHeader(b []byte, res *fasthttp.Response) error {
 
 	var regularSeen bool
 
+	statusSeen := 0
+
+	bad := func(e error) {
+		if err == nil {
+			err = e
+		}
+	}
+
 	for len(b) > 0 {
-		b, err = dec.Next(hf, b)
-		if errors.Is(err, ErrNoField) {
+		var derr error
+
+		b, derr = dec.Next(hf, b)
+		if errors.Is(derr, ErrNoField) {
 			break
 		}
 
+		if derr != nil {
+			return derr, true, false
+		}
+
 		if err != nil {
-			return err
+			continue
 		}
 
 		// A response carries exactly one pseudo-header, :status, and it must
@@ -1573,19 +1697,27 @@ func (c *Conn) readHeader(b []byte, res *fasthttp.Response) error {
 		// https://httpwg.org/specs/rfc7540.html#rfc.section.8.1.2.4
 		if hf.IsPseudo() {
 			if regularSeen {
-				return errPseudoAfterRegular
+				bad(errPseudoAfterRegular)
+				continue
 			}
 
-			if !bytes.Equal(hf.KeyBytes(), StringStatus) {
-				return fmt.Errorf("invalid response pseudo-header %q", hf.KeyBytes())
+			if trailers || !bytes.Equal(hf.KeyBytes(), StringStatus) {
+				bad(fmt.Errorf("invalid response pseudo-header %q", hf.KeyBytes()))
+				continue
 			}
 
-			n, err := parseUint(hf.ValueBytes())
-			if err != nil || n < 100 || n > 999 {
-				return errInvalidStatus
+			n, perr := parseUint(hf.ValueBytes())
+			if perr != nil || n < 100 || n > 999 {
+				bad(errInvalidStatus)
+				continue
 			}
 
-			res.SetStatusCode(n)
+			statusSeen++
+			interim = n < 200
+
+			if res != nil {
+				res.SetStatusCode(n)
+			}
 
 			continue
 		}
@@ -1593,26 +1725,36 @@ func (c *Conn) readHeader(b []byte, res *fasthttp.Response) error {
 		regularSeen = true
 
 		if hasUpperCase(hf.KeyBytes()) {
-			return errUpperCaseHeader
+			bad(errUpperCaseHeader)
+			continue
 		}
 
 		if isConnectionSpecific(hf.KeyBytes()) {
-			return errConnectionSpecific
+			bad(errConnectionSpecific)
+			continue
 		}
 
 		if bytes.Equal(hf.KeyBytes(), StringContentLength) {
-			n, err := parseUint(hf.ValueBytes())
-			if err != nil {
-				return errInvalidContentLength
+			n, perr := parseUint(hf.ValueBytes())
+			if perr != nil {
+				bad(errInvalidContentLength)
+				continue
 			}
 
-			res.Header.SetContentLength(n)
-		} else {
+			if res != nil {
+				res.Header.SetContentLength(n)
+			}
+		} else if res != nil {
 			res.Header.AddBytesKV(hf.KeyBytes(), hf.ValueBytes())
 		}
 	}
 
-	return nil
+	// exactly one :status in a response header block, none in trailers
+	if err == nil && !trailers && statusSeen != 1 {
+		err = errInvalidStatus
+	}
+
+	return err, false, interim
 }
 
 var (
